@@ -350,6 +350,33 @@ func (p *Program) addrBaseTerm(x ssa.Value, busy map[ssa.Value]bool, depth int) 
 	return p.termOf(x, busy, depth+1)
 }
 
+// encodedInto: `a` is a []byte local whose address is handed to codec.NewEncoderBytes; the objects
+// passed to that encoder's Encode are what the buffer holds.
+func (p *Program) encodedInto(a *ssa.Alloc, busy map[ssa.Value]bool, depth int) *Term {
+	if !isByteSlice(deref(a.Type())) || a.Referrers() == nil {
+		return nil
+	}
+	var out *Term
+	for _, r := range *a.Referrers() {
+		call, ok := r.(*ssa.Call)
+		if !ok || call.Call.StaticCallee() == nil || call.Call.StaticCallee().Name() != "NewEncoderBytes" || len(call.Call.Args) != 2 || call.Call.Args[0] != ssa.Value(a) || call.Referrers() == nil {
+			continue
+		}
+		for _, u := range *call.Referrers() {
+			ec, ok := u.(*ssa.Call)
+			if !ok || ec.Call.StaticCallee() == nil || ec.Call.StaticCallee().Name() != "Encode" || len(ec.Call.Args) != 2 || ec.Call.Args[0] != ssa.Value(call) {
+				continue
+			}
+			t := mk("encoded", "", ec, p.termOf(ec.Call.Args[1], busy, depth+1), p.termOf(call.Call.Args[1], busy, depth+1))
+			if out != nil {
+				return nil // more than one encoding into the same buffer: not described
+			}
+			out = t
+		}
+	}
+	return out
+}
+
 // cellTerm: the set of values ever stored into a local cell (flow-insensitive).
 func (p *Program) cellTerm(a *ssa.Alloc, v ssa.Value, busy map[ssa.Value]bool, depth int) *Term {
 	if busy[a] {
@@ -366,6 +393,11 @@ func (p *Program) cellTerm(a *ssa.Alloc, v ssa.Value, busy map[ssa.Value]bool, d
 		// a struct built field by field (composite literal): describe its content
 		if st := p.structTerm(a, busy, depth); st != nil {
 			return st
+		}
+		// a byte buffer filled through its address by an encoder (`NewEncoderBytes(&buf, h).Encode(x)`):
+		// its content is the encoding of x under handle h
+		if enc := p.encodedInto(a, busy, depth); enc != nil {
+			return enc
 		}
 		// zero value of the cell (never stored)
 		return mk("alloc", typeStr(a.Type()), a)
@@ -643,6 +675,8 @@ func (t *Term) Render(hook func(t *Term, rec func(*Term) string) (string, bool))
 		s = "[" + argstr() + "]"
 	case "struct":
 		s = t.Name + "{" + argstr() + "}"
+	case "encoded":
+		s = "encoded(" + argstr() + ")"
 	case "fieldval":
 		s = t.Name + ":" + rec(t.Args[0])
 	case "LT", "EQ":
